@@ -183,34 +183,49 @@ def template_of(body, op):
                 tr2 = trace(body, a0)
                 if tr2.origin and tr2.origin[0] == "const":
                     c = tr2.origin[1]
-                    if f["name"] == "from_str" and "str" in c:
+                    if f["name"] in ("from_str", "from_str_nonconst") and "str" in c:
                         return ("str", c["str"])
                     if "bytes" in c:
                         return ("tmpl", decode_template(c["bytes"]))
     return None
 
 
-def decode_template(bs):
-    """Decode the compact fmt template of this toolchain: pieces are <len><bytes>; 0xC0 marks an
-    argument; 0x00 ends. Returns a string with '{}' for arguments. Unknown opcodes are kept as
-    '\\x??' so that a prefix test on the literal text stays meaningful."""
+def decode_template(bs, with_args=False):
+    """Decode core::fmt's template byte sequence (see library/core/src/fmt/mod.rs of this toolchain):
+    literal pieces are <len><bytes> (len < 0x80) or 0x80 <u16 le len> <bytes>; placeholders are a
+    byte with the two top bits set followed by optional flags(4)/width(2)/precision(2)/arg_index(2)
+    fields; 0 ends the template. Returns the text with '{}' per placeholder (and, with_args, the list
+    of argument indices in order of appearance)."""
     out = []
+    args = []
     i = 0
     n = len(bs)
+    next_arg = 0
     while i < n:
         b = bs[i]
+        i += 1
         if b == 0:
             break
-        if b >= 0x80:
+        if b < 0x80:
+            out.append(bytes(bs[i : i + b]).decode("utf-8", "replace"))
+            i += b
+        elif b == 0x80:
+            ln = bs[i] | (bs[i + 1] << 8)
+            i += 2
+            out.append(bytes(bs[i : i + ln]).decode("utf-8", "replace"))
+            i += ln
+        else:
+            if b & 1:
+                i += 4
+            if b & 2:
+                i += 2
+            if b & 4:
+                i += 2
+            if b & 8:
+                next_arg = bs[i] | (bs[i + 1] << 8)
+                i += 2
             out.append("{}")
-            i += 1
-            # argument descriptors may carry extra bytes for format specs; skip non-length bytes
-            # conservatively: only 0xC0 (plain argument) is known to be a single byte
-            continue
-        seg = bs[i + 1 : i + 1 + b]
-        try:
-            out.append(bytes(seg).decode("utf-8"))
-        except UnicodeDecodeError:
-            out.append(bytes(seg).decode("latin-1"))
-        i += 1 + b
-    return "".join(out)
+            args.append(next_arg)
+            next_arg += 1
+    text = "".join(out)
+    return (text, args) if with_args else text
